@@ -36,6 +36,17 @@ type pathExplorer struct {
 	// has been in (values computed there are about to be recomputed).
 	maxVisits int
 	onRevisit func(st any) any
+	// curVals: the bindings of the path being walked, for the callbacks (see val)
+	curVals valEnv
+}
+
+// val resolves v on the path being walked: the parameter of an inlined helper to the argument it
+// was given, the result of an inlined call to the value returned. For use inside the callbacks.
+func (e *pathExplorer) val(v ssa.Value) ssa.Value {
+	if e.curVals == nil {
+		return v
+	}
+	return e.curVals.get(v)
 }
 
 // valEnv binds values to what they are known to be on the current path: the
@@ -178,7 +189,9 @@ func (e *pathExplorer) enter(call *ssa.Call, h *ssa.Function, st any, vals valEn
 		}
 	}
 	e.walk(h.Blocks[0], 0, nil, st, phiEnv{}, in, map[*ssa.BasicBlock]int{}, depth+1, func(st2 any, res []ssa.Value) {
-		out := vals
+		// the helper's parameters stay bound: a value it returns (a comparison of its parameters,
+		// say) is looked at by the caller after the return
+		out := in
 		if len(res) == 1 {
 			out = out.bind(call, res[0])
 		} else if len(res) > 1 && call.Referrers() != nil {
@@ -212,6 +225,7 @@ func (e *pathExplorer) walk(b *ssa.BasicBlock, from int, pred *ssa.BasicBlock, s
 		defer func() { on[b]-- }()
 		env = env.with(b, pred)
 	}
+	e.curVals = vals
 	for i := from; i < len(b.Instrs); i++ {
 		in := b.Instrs[i]
 		if call, ok := in.(*ssa.Call); ok && e.anywhere {
@@ -230,6 +244,7 @@ func (e *pathExplorer) walk(b *ssa.BasicBlock, from int, pred *ssa.BasicBlock, s
 			st = e.onInstr(st, in)
 		}
 	}
+	e.curVals = vals
 	resolve := func(v ssa.Value) (ssa.Value, bool) {
 		neg := false
 		for i := 0; i < 8; i++ {
@@ -320,6 +335,7 @@ func (e *pathExplorer) walk(b *ssa.BasicBlock, from int, pred *ssa.BasicBlock, s
 							pol := (i == 0) != neg
 							st3, ok := st2, true
 							if e.onCond != nil {
+								e.curVals = vals
 								st3, ok = e.onCond(st2, res[0], pol)
 							}
 							if ok {
@@ -339,6 +355,7 @@ func (e *pathExplorer) walk(b *ssa.BasicBlock, from int, pred *ssa.BasicBlock, s
 			pol := (i == 0) != neg
 			st2, ok := st, true
 			if e.onCond != nil {
+				e.curVals = vals
 				st2, ok = e.onCond(st, cond, pol)
 			}
 			if ok {
